@@ -77,6 +77,7 @@ TimeVerdict(e) ==
   ELSE IF e.back_secs # Secs1900(e.sec32) \/ e.back_ns # Nanos(e.frac32) THEN "time-extraction"
   ELSE ""
 Verdict(e) == IF e.panic # "" THEN "panic"
+  ELSE IF ~e.earlier_same THEN "object-returned-earlier-reads-differently-after-a-later-call"
               ELSE IF e.op = "decode" THEN DecodeVerdict(e)
               ELSE IF e.op = "build" THEN BuildVerdict(e)
               ELSE IF e.op = "time" THEN TimeVerdict(e)
